@@ -180,6 +180,14 @@ def run(tier, seed, replay=None):
                 allcases[(3 + j) % nproc].insert(0, {"id": 999100 + j, "seed": seed, "pre": [], "keys": ks, "dbs": [{"db": 0, "pages": [[1, 2], list(range(3, nk + 1))]}],
                                                     "cfg": {"scan_key_number": 3, "big_threshold": 10 ** 9, "key_exists": "none", "tdb": -1, "fdb_white": [], "fdb_black": [], "fkey_white": [],
                                                             "fkey_black": [], "key_file": False, "target_version": "5.0.7", "qps": qps, "scan_lull_ms": 2300}})
+        # a fault at the target in the middle of a batch: one RESTORE is refused (OOM) - the run must not end as a success
+        # (last case of its process: the command's goroutines stay behind after the tool's "panic = exit")
+        if not replay:
+            for j, nb in enumerate([2, 3] if thorough else [2]):
+                ks = [{"id": i + 1, "db": 0, "name": "tf%d" % i, "kind": "string", "n": 1, "elem": 6, "ttl": 0, "vanish": "never", "scanned": True, "passes": True} for i in range(6)]
+                allcases[(5 + j) % nproc].append({"id": 999400 + j, "seed": seed, "pre": [], "keys": ks, "dbs": [{"db": 0, "pages": [[1, 2, 3], [4, 5, 6]]}],
+                                                  "cfg": {"scan_key_number": nb, "big_threshold": 10 ** 9, "key_exists": "none", "tdb": -1, "fdb_white": [], "fdb_black": [], "fkey_white": [],
+                                                          "fkey_black": [], "key_file": False, "target_version": "5.0.7", "fault_key": "tf2"}})
         def one(p):
             d = sc.path("w%d" % p)
             os.makedirs(d, exist_ok=True)
